@@ -259,6 +259,7 @@ def main():
         ck.finish()
     ck.check_props()
     ck.check_translation("pstring")
+    ck.check_translation("linear")
     cases = []
     corpus = [([[1, 0, "X"], [1, 0, "Z"]], [[1, 0, "X"], [1, 0, "Z"]]), ([[1, 0, "I"], [2, 0, "I"]], [[1, 0, "I"]]), ([[1, 0, "X"], [-1, 0, "X"]], [[0, 0, "Z"]])]
     for a, b in corpus:
